@@ -37,6 +37,8 @@ impl Observer<Val, i64> for GroupProbe {
 
 struct OuterProbe {
   log: GLog,
+  /// a consumer that is not interested in this key: its group is announced and left without a subscriber
+  ignore: Option<Val>,
 }
 
 macro_rules! outer_impl {
@@ -45,6 +47,9 @@ macro_rules! outer_impl {
       fn next(&mut self, g: KeyObservable<Val, $subj>) {
         let key = g.key.clone();
         self.log.lock().unwrap().push(G::Announce(key.clone()));
+        if self.ignore.as_ref() == Some(&key) {
+          return;
+        }
         let _ = g.actual_subscribe(GroupProbe { key, log: self.log.clone() });
       }
       fn error(self, e: i64) {
@@ -123,13 +128,14 @@ pub fn run_group_by(body: &[Sexp]) -> String {
   let f = Fn1::parse(&body[1]);
   let calls: Vec<Ev> = body[2].args().iter().map(Ev::parse).collect();
   let log: GLog = GLog::default();
+  let ignore: Option<Val> = None;
   match form {
     "local-hot" => {
       let src: Subject<'static, Val, i64> = Subject::default();
       let _u = src
         .clone()
         .group_by::<_, _, Subject<'static, Val, i64>>(move |v: &Val| f.apply(v))
-        .actual_subscribe(OuterProbe { log: log.clone() });
+        .actual_subscribe(OuterProbe { log: log.clone(), ignore: ignore.clone() });
       for c in calls {
         crate::chain::local::emit(&src, c);
       }
@@ -139,7 +145,7 @@ pub fn run_group_by(body: &[Sexp]) -> String {
       let _u = src
         .clone()
         .group_by::<_, _, SubjectThreads<Val, i64>>(move |v: &Val| f.apply(v))
-        .actual_subscribe(OuterProbe { log: log.clone() });
+        .actual_subscribe(OuterProbe { log: log.clone(), ignore: ignore.clone() });
       for c in calls {
         crate::chain::threads::emit(&src, c);
       }
@@ -151,11 +157,11 @@ pub fn run_group_by(body: &[Sexp]) -> String {
       if form == "local-cold" {
         let _u = src
           .group_by::<_, _, Subject<'static, Val, i64>>(move |v: &Val| f.apply(v))
-          .actual_subscribe(OuterProbe { log: log.clone() });
+          .actual_subscribe(OuterProbe { log: log.clone(), ignore: ignore.clone() });
       } else {
         let _u = src
           .group_by::<_, _, SubjectThreads<Val, i64>>(move |v: &Val| f.apply(v))
-          .actual_subscribe(OuterProbe { log: log.clone() });
+          .actual_subscribe(OuterProbe { log: log.clone(), ignore: ignore.clone() });
       }
     }
     f => panic!("bad group_by form {f}"),
@@ -182,16 +188,17 @@ fn run_group_by_variant(body: &[Sexp], stateful: bool) -> String {
       Val::Z(n / 2)
     }
   };
-  let take: Option<usize> = body.get(3).map(|t| t.args()[0].usize());
+  let take: Option<usize> = body.get(3).filter(|t| t.head() == "take").map(|t| t.args()[0].usize());
+  let ignore: Option<Val> = body.get(3).filter(|t| t.head() == "ignore").map(|t| Val::parse(&t.args()[0]));
   macro_rules! go {
     ($subj:ty) => {{
       let g = src.group_by::<_, _, $subj>(key);
       match take {
         Some(n) => {
-          let _u = ObservableExt::<KeyObservable<Val, $subj>, i64>::take(g, n).actual_subscribe(OuterProbe { log: log.clone() });
+          let _u = ObservableExt::<KeyObservable<Val, $subj>, i64>::take(g, n).actual_subscribe(OuterProbe { log: log.clone(), ignore: ignore.clone() });
         }
         None => {
-          let _u = g.actual_subscribe(OuterProbe { log: log.clone() });
+          let _u = g.actual_subscribe(OuterProbe { log: log.clone(), ignore: ignore.clone() });
         }
       }
     }};
